@@ -103,6 +103,26 @@ class C17(Check):
             for _ in range(20 if tier == "quick" else 200):
                 l = [rng.choice([0, 1, -1, 7, 10, -42, 123456789, 2**40]) for _ in range(n)]
                 yield "joini %s %s" % (hx(rng.choice(["", ",", " ", "0", "-"])), ",".join(str(x) for x in l) or "."), "join-ints"
+        # bytes that mean something to pattern or format-string languages (a literal text function must not care)
+        META = ".*+?()[]{}\\^$|&1-"
+        for _ in range(1500 if tier == "quick" else 15000):
+            s_ = "".join(rng.choice(META + "ab") for _ in range(rng.randint(0, 12)))
+            if s_ and rng.random() < 0.8:
+                i = rng.randrange(len(s_)); nd = s_[i:i + rng.randint(1, 3)]
+            else:
+                nd = "".join(rng.choice(META) for _ in range(rng.randint(1, 2)))
+            rep = rng.choice(["", "$&", "$1", "$$", "\\1", "$`", "$'", "&", "x", nd + nd, "(" + nd + ")"])
+            k = rng.random()
+            if k < 0.6:
+                yield "replace %s %s %s" % (hx(nd), hx(rep), hx(s_)), "replace-meta"
+            elif k < 0.8:
+                yield "split %s %s" % (hx(nd), hx(s_)), "split-meta"
+            else:
+                yield "starts %s %s" % (hx(s_), hx(s_[:rng.randint(0, len(s_))] if rng.random() < 0.6 else nd)), "starts-meta"
+        for ch in META:
+            yield "replace %s %s %s" % (hx(ch), hx("_"), hx("a" + ch + "b" + ch + "c")), "replace-meta"
+            yield "replace %s %s %s" % (hx("b"), hx("$" + ch), hx("abc")), "replace-meta"
+            yield "split %s %s" % (hx(ch), hx("a" + ch + "b" + ch + "c")), "split-meta"
         # very long inputs: many occurrences, overlapping patterns, replacement containing the pattern
         for n in ([20000] if tier == "quick" else [20000, 200000]):
             yield "replace %s %s %s" % (hx("aa"), hx("a"), hx("a" * n)), "long"
